@@ -4,6 +4,9 @@
 import VK.Model.Rules
 import VK.Lemmas.Sum
 import VK.Lemmas.STVRun
+import VK.Lemmas.PSC
+import VK.Lemmas.NoFuel
+import VK.Lemmas.FpvLink
 
 namespace VK
 
@@ -137,6 +140,70 @@ theorem C01_irv_one_winner (p : Profile) (quota : Quota) (tb : Option TB) (ω : 
     (hc : p.cands.Nodup) (h : irvRun p quota tb ω = .ok res) : (electedOf res.states).length = 1 := by
   unfold irvRun at h
   exact (C01_stv_exactly_m_and_partition _ p ω res hc h).1
+
+/-! ### termination: the fuel of the STV loop is never what ends a count -/
+
+theorem stvLoop_noFuel (cfg : STVCfg) (init : Profile) (q : Int) (ω : STVOracle) (hi : init.cands.Nodup)
+    (fuel : Nat) (S : CState) (prev : RoundState) (acc : List (RoundState × CState))
+    (hcs : ∀ c ∈ S.hopeful, c ∈ init.cands) (inv : StvInv init.cands S prev (acc.map (·.1)))
+    (hl : Linked S prev) (hfuel : S.hopeful.length + 1 ≤ fuel) :
+    NoFuel (stvLoop cfg init q ω fuel S prev acc) := by
+  induction fuel generalizing S prev acc with
+  | zero => omega
+  | succ fuel ih =>
+    unfold stvLoop
+    split
+    · exact noFuel_ok _
+    · rename_i hm
+      cases hs : stvStep cfg init q ω (prev.round + 1) S prev with
+      | ok Sr =>
+        obtain ⟨S', r⟩ := Sr
+        simp only [bind, Outcome.bind]
+        obtain ⟨inv', hsub, _⟩ := stvStep_inv cfg init q ω _ S S' prev r _ hi hcs inv hs
+        have hl' := stvStep_linked cfg init q ω _ S S' prev r hs
+        have hdec := stvStep_decreases cfg init q ω _ S S' prev r _ hi hcs inv hl hm hs
+        exact ih S' r ((r, S') :: acc) (fun c hc => hcs c (hsub c hc)) (by simpa using inv') hl' (by omega)
+      | raised e => simp only [bind, Outcome.bind]; exact noFuel_raised e
+      | oracleMismatch => simp only [bind, Outcome.bind]; exact noFuel_mismatch
+      | outOfFuel => exact absurd hs (noFuel_stvStep cfg init q ω _ S prev)
+
+/-- **C01 — termination.** For every profile of untied ranked ballots over its declared candidates,
+every configuration and every oracle, an STV / IRV / SequentialRCV count never runs out of fuel: each
+round removes a hopeful candidate, so the count ends (with a result or an exception) within
+`#candidates + 1` rounds. -/
+theorem C01_stv_terminates (cfg : STVCfg) (p : Profile) (ω : STVOracle) (quotaOk : Bool)
+    (hc : p.cands.Nodup)
+    (hne : ∀ b ∈ p.ballots, b.ranking ≠ [])
+    (hsingle : ∀ b ∈ p.ballots, ∀ s ∈ b.ranking, s.length = 1)
+    (hcast : ∀ b ∈ p.ballots, ∀ c ∈ b.ranking.flatten, c ∈ p.cands) :
+    NoFuel (stvRun cfg p ω quotaOk) := by
+  unfold stvRun
+  split; · exact noFuel_raised _
+  split; · exact noFuel_raised _
+  split; · exact noFuel_raised _
+  have hfpv := fpv_link p hne hsingle hcast
+  simp only [hfpv, bind, Outcome.bind]
+  set sc0 := tallies (stvInitState p).bs p.cands with hsc0
+  set st0 := initialState p.cands (some sc0) with hst0
+  have hrem0 : st0.remaining.flatten.Perm p.cands := by
+    have := scoreToRanking_perm sc0
+    rw [hsc0, tallies_keys] at this
+    simpa [hst0, initialState] using this
+  have inv0 : StvInv p.cands (stvInitState p) st0 ([(st0, stvInitState p)].map (·.1)) := by
+    refine ⟨hc, hrem0, ?_, ?_, ?_, trivial⟩
+    · simp [stvInitState, electedIn, hst0, initialState]
+    · simp [stvInitState, electedIn, eliminatedIn, hst0, initialState]
+    · simpa [electedIn, eliminatedIn, hst0, initialState] using hrem0
+  have hl0 : Linked (stvInitState p) st0 :=
+    ⟨by simp [hst0, initialState, hsc0, stvInitState], by simp [hst0, initialState]⟩
+  have := stvLoop_noFuel cfg p (threshold cfg.quota cfg.m p.total) ω hc (p.cands.length + 2) (stvInitState p) st0
+    [(st0, stvInitState p)] (fun c hc' => hc') inv0 hl0 (by simp [stvInitState])
+  cases hloop : stvLoop cfg p (threshold cfg.quota cfg.m p.total) ω (p.cands.length + 2) (stvInitState p) st0
+      [(st0, stvInitState p)] with
+  | ok tr => exact noFuel_pure _
+  | raised e => exact noFuel_raised e
+  | oracleMismatch => exact noFuel_mismatch
+  | outOfFuel => exact absurd hloop this
 
 /-! ### single-round rules: exactly `m` winners, a partition, and no result across an unbroken tie -/
 
